@@ -120,6 +120,7 @@ let eval_stream (stream : string) (case : string) (impl : string) : verdict =
   | "printer" -> let (model, fails) = Printer_o.eval case impl in { model; fails }
   | "pool" -> let (model, fails) = Pool_o.eval case impl in { model; fails }
   | "modes" -> let (model, fails) = Modes_o.eval case impl in { model; fails }
+  | "epoll" -> let (model, fails) = Epoll_o.eval case impl in { model; fails }
   | "clientread" -> let (model, fails) = Parse_o.eval_clientread case impl in { model; fails }
   | "body" -> let (model, fails) = Body_o.eval case impl in { model; fails }
   | s -> failwith ("unknown stream " ^ s)
